@@ -21,6 +21,8 @@ func main() {
 		os.Exit(cmdRun(os.Args[2:]))
 	case "check":
 		os.Exit(cmdCheck(os.Args[2:]))
+	case "replay":
+		os.Exit(cmdReplay(os.Args[2:]))
 	default:
 		fmt.Fprintln(os.Stderr, "unknown command", os.Args[1])
 		os.Exit(2)
@@ -37,6 +39,19 @@ func loadProgram() (*sym.Program, error) {
 		hd = "/verif/harness/larking"
 	}
 	return sym.Load(repo, "larking", "larking.io/larking", hd)
+}
+
+// loadProgramOverlayOnly builds just the overlay map (no type-checking), for native replays.
+func loadProgramOverlayOnly() (*sym.Program, error) {
+	repo := os.Getenv("VERIF_REPO")
+	if repo == "" {
+		repo = "/repo"
+	}
+	hd := os.Getenv("VERIF_HARNESS")
+	if hd == "" {
+		hd = "/verif/harness/larking"
+	}
+	return sym.OverlayOnly(repo, "larking", hd)
 }
 
 func cmdRun(args []string) int {
@@ -113,4 +128,3 @@ func cmdRun(args []string) int {
 	return 0
 }
 
-func cmdCheck(args []string) int { return 2 }
